@@ -6088,6 +6088,10 @@ BD_Shape<T>::generalized_affine_image(const Linear_Expression& lhs,
       for (dimension_type i = lhs_vars.size(); i-- > 0; ) {
         forget_all_dbm_constraints(lhs_vars[i].id() + 1);
       }
+      // Shortest-path closure is preserved, but not reduction.
+      if (marked_shortest_path_reduced()) {
+        reset_shortest_path_reduced();
+      }
       // Constrain the left hand side expression so that it is related to
       // the right hand side expression as dictated by `relsym'.
       // TODO: if the following constraint is NOT a bounded difference,
@@ -6115,6 +6119,10 @@ BD_Shape<T>::generalized_affine_image(const Linear_Expression& lhs,
 
       for (dimension_type i = lhs_vars.size(); i-- > 0; ) {
         forget_all_dbm_constraints(lhs_vars[i].id() + 1);
+      }
+      // Shortest-path closure is preserved, but not reduction.
+      if (marked_shortest_path_reduced()) {
+        reset_shortest_path_reduced();
       }
 #else // Currently unnecessarily complex computation.
 
@@ -6362,6 +6370,10 @@ BD_Shape<T>::generalized_affine_preimage(const Linear_Expression& lhs,
       // Existentially quantify all variables in the lhs.
       for (dimension_type i = lhs_vars.size(); i-- > 0; ) {
         forget_all_dbm_constraints(lhs_vars[i].id() + 1);
+      }
+      // Shortest-path closure is preserved, but not reduction.
+      if (marked_shortest_path_reduced()) {
+        reset_shortest_path_reduced();
       }
     }
     else {
